@@ -52,6 +52,15 @@ def check(ctx):
         ctx.ok(fn, box[0].stmt, "every path passes a box stage")
     for kind, tag, what in (("dedupe", "UNIQ", "row de-duplication (np.unique(axis=0) with order restored)"),):
         sts = fs.stage(kind)
+        if not sts and kind == "dedupe" and any(r.detail.get("dedupes") for r in fs.stage("removal")):
+            # no separate exact pass: the unique-over-rounded-rows pass keeps first occurrences of distinct rows of the
+            # candidate block, which de-duplicates it (it must then lie on every path, like a dedupe stage)
+            sts = [r for r in fs.stage("removal") if r.detail.get("dedupes")]
+            if tag not in pt and not fs.stage("other"):
+                ctx.fail(fn, sts[0].stmt, "the only de-duplicating pass (unique over the rounded stacked rows) can be bypassed on a path to the return", construct="bypass of dedupe")
+            else:
+                ctx.ok(fn, sts[0].stmt, "de-duplication by the unique-over-rounded-rows pass on every path")
+            continue
         if not sts:
             ctx.missing(fn, what)
             continue
